@@ -425,6 +425,13 @@ func monC03(w *World) {
 			w.violate("C03", "C03/leader", nd, "%s signed a vote for %s (view %d) received from replica %d, but its leader for that view is %d", nd, sym, b.View(), sender, leader)
 			return
 		}
+		if _, isProp := nd.curEvent.(hotstuff.ProposeMsg); isProp && known && !w.kauri() && sender != nd.id {
+			// ... and "received from" means the connection it came over, whatever the message says about itself
+			if from := nd.blockSenders[b.Hash()]; len(from) > 0 && !from[leader] {
+				w.violate("C03", "C03/leader", nd, "%s signed a vote for %s (view %d), which it was handed only by %v; its leader for that view, %d, never sent it", nd, sym, b.View(), idsOf(from), leader)
+				return
+			}
+		}
 		// (2) carries a valid certificate
 		if ok, why := w.orc.qcBacked(b.QuorumCert()); !ok {
 			w.violate("C03", "C03/qc", nd, "%s signed a vote for %s whose certificate is not backed by a quorum: %s", nd, sym, why)
@@ -605,6 +612,32 @@ func assembledChecks(w *World) {
 			}
 		}
 	}
+	// a verified certificate's signature presented again as a batch signature in which every signer's message is
+	// the certified block: the two kinds of verification must not share cache entries
+	done = 0
+	for _, bi := range w.reg.order {
+		if done >= 3 || w.viol != nil {
+			break
+		}
+		qc := bi.b.QuorumCert()
+		cb := w.reg.get(qc.BlockHash())
+		if qc.Signature() == nil || cb == nil || qc.Signature().Participants().Len() < 2 {
+			continue
+		}
+		done++
+		batch := map[hotstuff.ID][]byte{}
+		qc.Signature().Participants().ForEach(func(id hotstuff.ID) { batch[id] = cb.ToBytes() })
+		c, p, _ := au.each(func(x *cert.Authority) error {
+			if err := x.Verify(qc.Signature(), cb.ToBytes()); err != nil {
+				return nil
+			}
+			return x.BatchVerify(qc.Signature(), batch)
+		})
+		w.probe("verify-then-batchverify-checked")
+		if c != p {
+			w.violate("C11", "C11/verify-then-batch/accept-vs-reject", nil, "the signature of the certificate for %s, verified over the block and then presented as a batch signature with that block as every signer's message: cached:%v uncached:%v", w.reg.sym(qc.BlockHash()), verdictB(c), verdictB(p))
+		}
+	}
 	// timeout certificates: signatures over two different views
 	views := map[hotstuff.View][]part{}
 	var order []hotstuff.View
@@ -712,4 +745,15 @@ func sortedKeys[V any](m map[string]V) []string {
 	}
 	sort.Strings(ks)
 	return ks
+}
+
+
+func idsOf(m map[hotstuff.ID]bool) []hotstuff.ID {
+	var out []hotstuff.ID
+	for id := hotstuff.ID(1); id < 64; id++ {
+		if m[id] {
+			out = append(out, id)
+		}
+	}
+	return out
 }
